@@ -128,4 +128,8 @@ def main():
     C = memory.CONTRACTS
     for fn in UNITS:
         chk.unit(FILE, fn, C, 'math', 'real', replayer=replayer)
+    import os
+    shim = os.path.join(os.path.dirname(os.path.dirname(os.path.abspath(__file__))), 'shims', 'c19_client.c')
+    for fn in ('c19_client', 'c19_nested'):
+        chk.unit('verif:shims/c19_client.c', fn, C, 'math', 'real', abspath=shim)
     return chk.finish()
